@@ -243,6 +243,14 @@ func scnActor(ctx *check.JobCtx) {
 				m2.Creator = signer.Addr.String()
 				m2.Provider = prov
 				w.Deliver("store", signer, tag("store-on-sponsor"), m2)
+				// an owner-signed proposal naming the owner itself as the payer, submitted by an unrelated account
+				for _, ow := range []*world.Owner{a.owner, a.sowner} {
+					did6 := w.NewDataId()
+					m3, _ := w.BuildStore(world.StoreReq{Owner: ow.Id, Gateway: a.gw, DataId: did6, CommitId: did6, Duration: 3600, Replica: 1, Timeout: 500, Size: 1000, Sponsor: ow.Id.DID()})
+					m3.Creator = signer.Addr.String()
+					m3.Provider = prov
+					w.Deliver("store", signer, tag("store-selfpaid-proposal"), m3)
+				}
 				if w.C.InBlock {
 					w.EndBlock()
 				}
@@ -276,6 +284,11 @@ func scnActor(ctx *check.JobCtx) {
 		_, o6 := w.Store(world.StoreReq{Owner: a.owner.Id, Gateway: a.gw, Relayer: a.gw.HotKeys[0], DataId: did6, CommitId: did6, Duration: 3600, Replica: 1, Timeout: 500, Size: 1000})
 		if o6 != 0 {
 			w.Deliver("cancel", a.gw.HotKeys[0], adv("control/cancel/creator-hotkey"), saotypes.NewMsgCancel(a.gw.HotKeys[0].Addr.String(), o6, a.gw.Acct.Addr.String()))
+		}
+		did7 := w.NewDataId()
+		if _, o7 := w.Store(world.StoreReq{Owner: a.owner.Id, Gateway: a.gw, Relayer: a.owner.Pay, MsgProv: a.owner.Pay.Addr.String(), DataId: did7, CommitId: did7, Duration: 3600, Replica: 1, Timeout: 500, Size: 1000,
+			Sponsor: a.owner.Id.DID(), Meta: adv("control/store/selfpaid-by-payment-address")}); o7 != 0 {
+			w.Cancel(a.owner.Pay, o7, a.owner.Pay.Addr.String())
 		}
 		w.Deliver("migrate", a.sps[0].Acct, adv("control/migrate/holder"), saotypes.NewMsgMigrate(a.sps[0].Acct.Addr.String(), []string{done}, a.sps[0].Acct.Addr.String()))
 		w.EndBlock()
